@@ -716,6 +716,32 @@ class Impl:
         except Exception as e:
             return err_str(e)
 
+    def c_sim_listing(self, a):
+        rows = self.sim.get_instruction_memory_entries()
+        if not rows:
+            return "."
+        return ";".join(f"{ad},{hx(h)},{hx(text)},{hx(stage)}" for (ad, h), text, stage in rows)
+
+    def c_sim_listingtext(self, a):
+        rows = self.sim.get_instruction_memory_entries()
+        if not rows:
+            return "."
+        return ";".join(f"{ad},{hx(h)},{hx(text)}" for (ad, h), text, _stage in rows)
+
+    @staticmethod
+    def _stats(d, with_addr=True):
+        if d is None:
+            return "none"
+        ad = d.get("address")
+        return f"{hx(d['hits'])},{hx(d['accesses'])},{1 if d['last_hit'] else 0}," + (("-" if ad is None else hx(ad)) if with_addr else "?")
+
+    def c_sim_dstats(self, a):
+        # the address shown in single-stage mode is the ALU result kept in the display register (not modelled)
+        return self._stats(self.sim.get_data_cache_stats(), with_addr=self.five)
+
+    def c_sim_istats(self, a):
+        return self._stats(self.sim.get_instruction_cache_stats())
+
     def c_toy_regtable(self, a):
         r = self.toy.get_register_representations()
         f = lambda t: "-" if t == ("", "", "", "") else self._reprs(t)
